@@ -32,7 +32,7 @@ partial def toEvents (K : Nat) : List Line → (Nat → Nat) → List (Option Ev
     let bad (_ : Unit) := toEvents K rest depth ((none, l.raw) :: acc)
     let w := decodeWord l.a
     match l.site with
-    | "stop.cas" | "stop.rm_check" | "stop.post_exec" | "ag.yield" | "inv.q" | "nop" =>
+    | "stop.held" | "stop.cas" | "stop.rm_check" | "stop.post_exec" | "ag.yield" | "inv.q" | "nop" =>
       toEvents K rest depth acc
     | "inv.rs" => toEvents K rest (upd depth t (d + 1)) ((some (.inv (t + K * d) .rs), l.raw) :: acc)
     | "inv.reg" => toEvents K rest (upd depth t (d + 1)) ((some (.inv (t + K * d) (.reg c)), l.raw) :: acc)
